@@ -460,6 +460,10 @@ class ExprMixin:
             return k(st, fn(self, st, s, n))
         if isinstance(op, ast.BitOr) and isinstance(a, (VInt, VBool)) and isinstance(b, (VInt, VBool)):
             return self.lower_or(st, a, b, k, node)
+        if isinstance(op, (ast.BitAnd, ast.BitOr)) and isinstance(a, VSet) and isinstance(b, VSet):
+            from .models import set_binop
+            s2, ns = set_binop(self, st, op, a, b)
+            return k(s2, ns)
         if isinstance(op, ast.Add) and isinstance(a, VStr) and isinstance(b, VStr):
             fn = self.reg.specfns.get("str_concat")
             if fn is None:
@@ -682,6 +686,8 @@ class ExprMixin:
             idx = self.unwrap_strict(idx)
             if isinstance(idx, VInt) and is_lit(idx.t) and lit_val(idx.t) == 0:
                 return k(st, base.obj)
+        if isinstance(base, VAny) and "subscript_opaque" in self.reg.specfns:
+            return self.reg.specfns["subscript_opaque"](self, st, base, idx, k, where)
         raise Unsupported(f"subscript of {base!r} at {where}")
 
     def ev_ListComp(self, st, e, k):
